@@ -361,6 +361,13 @@ Definition rd_read (mode : N) (r : reader) (room : nat) : rd_result :=
       RdOk (firstn n d) (mk_reader (skipn n d) (if (n =? b)%nat then s else (b - n)%nat :: s))
   end.
 
+Definition sum_sched (s : list nat) : nat := fold_right Nat.add O s.
+(** Every burst of a schedule delivers at least one byte (a 0-byte read is how a peer says EOF,
+    which is what [mode] 0 is for). *)
+Definition sched_pos (s : list nat) : Prop := Forall (fun b => (0 < b)%nat) s.
+(** How many bytes the connection will still deliver. *)
+Definition avail (r : reader) : nat := Nat.min (sum_sched (rd_sched r)) (length (rd_data r)).
+
 Definition start_tokens : list bytes := Eval vm_compute in
   [B "GET"; B "HEAD"; B "POST"; B "PUT"; B "DELETE"; B "TRACE"; B "OPTIONS"; B "CONNECT"; B "PATCH";
    B "COPY"; B "LOCK"; B "MKCOL"; B "MOVE"; B "PROPFIND"; B "PROPPATCH"; B "UNLOCK";
@@ -472,7 +479,7 @@ Section Growth.
     let buf := firstn len early in
     let left := (len - length buf)%nat in
     if (len <=? length buf)%nat then Ok (buf, r) else
-    rtem_loop (S left) mode len buf (rtem_reserve 0 len) left r.
+    rtem_loop (S left) mode len buf (rtem_reserve (length buf) len) left r.
 
   (** Head, then body: what a handler that calls [read_to_bytes(limit)] sees. *)
   Record served := mk_served { sv_request : request; sv_body : outcome bytes; sv_consumed : nat }.
@@ -490,6 +497,57 @@ End Growth.
 (** [Vec]'s amortised growth as [BytesMut::reserve] uses it. *)
 Definition vec_grow (cap len additional : nat) : nat :=
   Nat.max (Nat.max (2 * cap) (len + additional)) 8.
+
+(** What [BytesMut::reserve] promises. *)
+Definition grow_ok (grow : nat -> nat -> nat -> nat) : Prop :=
+  forall cap len additional, (len + additional <= grow cap len additional)%nat.
+
+(** ** Specification of the reader: functions of the delivered byte string alone
+    (no schedule, no capacities: segmentation-blind by construction) *)
+
+(** Length of the shortest prefix that [contains_two_newlines], started with [in_row]. *)
+Fixpoint bl_end (in_row : bool) (b : bytes) : option nat :=
+  match b with
+  | [] => None
+  | c :: r =>
+      if c =? LF then (if in_row then Some 1%nat else option_map S (bl_end true r))
+      else if c =? CR then option_map S (bl_end in_row r)
+      else option_map S (bl_end false r)
+  end.
+Definition blank_end (b : bytes) : option nat := bl_end false b.
+
+(** The head phase on the delivered bytes [ds]: where the head ends, or the error. *)
+Definition head_fail (max_len : nat) (ds : bytes) : outcome nat :=
+  if (9 <=? Nat.min (length ds) max_len)%nat && negb (valid_start ds) then Err E_SYNTAX
+  else if (max_len <=? length ds)%nat then Err E_TOO_LONG else Err E_UNEXPECTED_END.
+Definition head_spec (max_len : nat) (ds : bytes) : outcome nat :=
+  match blank_end ds with
+  | Some k => if (k <=? max_len)%nat then (if valid_start ds then Ok k else Err E_SYNTAX) else head_fail max_len ds
+  | None => head_fail max_len ds
+  end.
+
+(** The body phase: [need] bytes of [early ++ ds], where [ds] is what the connection still delivers. *)
+Definition body_spec (mode : N) (early : bytes) (content_length limit : N) (ds : bytes) : outcome bytes :=
+  let need := N.to_nat (N.min content_length limit) in
+  if (need <=? length early + length ds)%nat then Ok (firstn need (early ++ ds))
+  else if mode =? 0 then Ok (early ++ ds) else if mode =? 1 then Err E_TIMEDOUT else Err E_IO.
+
+(** What a handler observes (everything but how many body bytes happened to arrive with the head). *)
+Record view := mk_view {
+  w_method : bytes; w_path : bytes; w_query : option bytes; w_version : N;
+  w_headers : hmap; w_authority : bytes; w_body : outcome bytes }.
+Definition view_of (s : served) : view :=
+  let q := sv_request s in
+  mk_view (q_method q) (q_path q) (q_query q) (q_version q) (q_headers q) (q_authority q) (sv_body s).
+
+(** The whole exchange as a function of the delivered bytes: head end, the parser on exactly
+    the head, the body from what follows. *)
+Definition serve_spec (mode : N) (https : bool) (dh : option bytes) (max_len : nat) (limit : N) (ds : bytes)
+  : outcome view :=
+  obind (head_spec max_len ds) (fun k =>
+  obind (parse_request https dh (firstn k ds)) (fun q =>
+  Ok (mk_view (q_method q) (q_path q) (q_query q) (q_version q) (q_headers q) (q_authority q)
+              (body_spec mode [] (body_length (q_method q) (q_headers q)) limit (skipn k ds))))).
 
 (** ** Specification: the request grammar and its printer *)
 
@@ -626,27 +684,40 @@ Definition d_greq (x : xval) : option greq :=
   | _ => None
   end.
 
-Definition sum_sched (s : list nat) : nat := fold_right Nat.add O s.
+(** The segmentation-blind verdict: what [serve_spec] says about the delivered bytes
+    (only for schedules of non-empty bursts; a 0-byte burst is an EOF to the reader). *)
+Definition blind_verdict (mode : N) (https : bool) (dh : option bytes) (max_len : nat) (limit : N)
+  (stream : bytes) (sched : list nat) : xval :=
+  if forallb (fun b => (0 <? b)%nat) sched then
+    match serve_spec mode https dh max_len limit (firstn (sum_sched sched) stream) with
+    | Ok w => XL [XN 0; XL (x_request_fields (w_method w) (w_path w) (w_query w) (w_version w) (w_headers w) (w_authority w)
+                            ++ [x_outcome XB (w_body w)])]
+    | Err e => XL [XN 1; XN e]
+    | Panic => XL [XN 2]
+    end
+  else XL [XN 7].
 
 (** spec for h1.request; the case input carries the structured request it was printed
-    from as an 8th element [(L [greq])]. *)
+    from as an 8th element [(L [greq])].  For a request of the grammar the verdict is the printed
+    request itself ([expect]); for every other stream it is [blind_verdict]. *)
 Definition run_request_spec (x : xval) : xval :=
   match x with
   | XL [h; d; XN max_len; XN mode; XB stream; s; XN limit; og] =>
       match d_bool h, d_option d_B d, d_sched s, d_option d_greq og with
       | Some https, Some dh, Some sched, Some og =>
           let delivered := Nat.min (sum_sched sched) (length stream) in
+          let blind := blind_verdict mode https dh (N.to_nat max_len) limit stream sched in
           if negb (contains_two_newlines (firstn (Nat.min (N.to_nat max_len) delivered) stream))
           then XL [XN 1]
           else
             match og with
-            | None => XL [XN 7]
+            | None => blind
             | Some g =>
                 let head := print_head g in
                 if greq_ok g && starts_with head stream && (length head <=? N.to_nat max_len)%nat then
                   let rest := skipn (length head) stream in
                   match expect https dh limit g rest with
-                  | None => XL [XN 7]
+                  | None => blind
                   | Some e =>
                       let need := N.to_nat (N.min (body_length (g_method g) (g_hmap g)) limit) in
                       if (length head + need <=? delivered)%nat then
@@ -659,9 +730,9 @@ Definition run_request_spec (x : xval) : xval :=
                                       ++ [if mode =? 0 then x_outcome XB (Ok (firstn (delivered - length head) rest))
                                           else if mode =? 1 then x_outcome XB (Err E_TIMEDOUT)
                                           else x_outcome XB (Err E_IO)])]
-                      else XL [XN 7]
+                      else blind
                   end
-                else XL [XN 7]
+                else blind
             end
       | _, _, _, _ => bad_input
       end
